@@ -244,6 +244,61 @@ theorem bestMatch_none_iff (N : Neg σ κ) (hs : TotalPre N.sle) (hq : TotalPre 
 example : bestMatch acceptNeg (mk acceptNeg [("gzip".toList, Q.zero), ("*".toList, ⟨5, 1⟩)])
     ["gzip".toList] = none := by decide
 
+/-! ## the property in one statement -/
+
+/-- declarative reading of "the quality of an offer": `x` is a client item that matches the offer,
+is at least as specific as every other matching item, and among the equally specific ones has the
+highest q -/
+def IsOfferQuality (N : Neg σ κ) (values : List (Str × κ)) (offer : Str) (x : Str × κ) : Prop :=
+  x ∈ values ∧ N.matches offer x.1 = true ∧
+  ∀ y ∈ values, N.matches offer y.1 = true →
+    N.sle (N.spec y.1) (N.spec x.1) = true ∧
+    (N.sle (N.spec x.1) (N.spec y.1) = true → N.qle y.2 x.2 = true)
+
+/-- The property, end to end on the parsed client items (any class): if `best_match` on the parsed
+header returns `r`, then `r` is an offer, its quality (the q of its most specific matching range)
+is positive, and no offer has a higher quality — where "quality" is the declarative
+`IsOfferQuality`, not the code's lookup. -/
+theorem negotiation_meets_property (N : Neg σ κ) (hs : TotalPre N.sle) (hq : TotalPre N.qle)
+    (values : List (Str × κ)) (offers : List Str) (r : Str)
+    (h : bestMatch N (mk N values) offers = some r) :
+    r ∈ offers ∧ ∃ x, IsOfferQuality N values r x ∧ N.qle x.2 N.zero = false ∧
+      ∀ o ∈ offers, ∀ y, IsOfferQuality N values o y → N.qle y.2 x.2 = true := by
+  obtain ⟨pre, post, ci, q, hl, hb, hpos, hall, _⟩ := bestMatch_optimal N hs hq (mk N values) offers r h
+  have hx := sorted_first_match_most_specific N hs hq values r (ci, q) hb
+  refine ⟨by rw [hl]; simp, (ci, q), hx, hpos, ?_⟩
+  intro o ho y hy
+  cases hbo : bestSingle N (mk N values) o with
+  | none =>
+    have := (no_match_iff N values o).mp hbo y hy.1
+    rw [hy.2.1] at this; cases this
+  | some y0 =>
+    obtain ⟨ci0, q0⟩ := y0
+    have hy0 := sorted_first_match_most_specific N hs hq values o (ci0, q0) hbo
+    -- y and y0 dominate each other, so q y ≤ q y0
+    have d1 := hy.2.2 (ci0, q0) hy0.1 hy0.2.1
+    have d2 := hy0.2.2 y hy.1 hy.2.1
+    have hyq : N.qle y.2 q0 = true := d2.2 d1.1
+    exact hq.trans _ _ _ hyq (hall o ho ci0 q0 hbo).1
+
+/-- ... and conversely nothing is chosen only when no offer has positive quality. -/
+theorem negotiation_none_meets_property (N : Neg σ κ) (hs : TotalPre N.sle) (hq : TotalPre N.qle)
+    (values : List (Str × κ)) (offers : List Str)
+    (h : bestMatch N (mk N values) offers = none) :
+    ∀ o ∈ offers, ∀ y, IsOfferQuality N values o y → N.qle y.2 N.zero = true := by
+  intro o ho y hy
+  have hnone := (bestMatch_none_iff N hs hq (mk N values) offers).mp h o ho
+  cases hbo : bestSingle N (mk N values) o with
+  | none =>
+    have := (no_match_iff N values o).mp hbo y hy.1
+    rw [hy.2.1] at this; cases this
+  | some y0 =>
+    obtain ⟨ci0, q0⟩ := y0
+    have hy0 := sorted_first_match_most_specific N hs hq values o (ci0, q0) hbo
+    have d1 := hy.2.2 (ci0, q0) hy0.1 hy0.2.1
+    have d2 := hy0.2.2 y hy.1 hy.2.1
+    exact hq.trans _ _ _ (d2.2 d1.1) (hnone ci0 q0 hbo)
+
 /-! ## q values -/
 
 /-- A q that passes `_q_value_re` and the range check lies in `[0, 1]`, and a q written with a
